@@ -93,7 +93,7 @@ CLAIMS = {
   'technique': 'Coq proofs over R on the generated RDP formulas (log-add, binomial moment series, RDP->DP conversion for finite distributions); kernel-checked interval certificates of the float values',
   'text': ('PARTIAL. Proved for the code generated from analysis/rdp.py: _log_add = ln(e^a+e^b); the integer-order log-moment is ln of the binomial moment series A_alpha; A_alpha >= 1; '
            'the q=0 / sigma=0 / q=1 cases; the RDP->(eps,delta) conversion with exactly the code\'s epsilon expression is sound for every pair of finite distributions, every order > 1 '
-           'and delta > 0 (Balle et al. Thm 21); min over orders. Float faithfulness is validated per point by the Interval tactic: the Python value of _compute_rdp lies within 1e-9 of '
+           'and delta > 0 (Balle et al. Thm 21); min over orders; for any expectation operator that is linear on finite sums and has the Gaussian moment generating function, the alpha-th moment of the subsampled-Gaussian privacy-loss ratio IS the series A_alpha (binomial theorem + linearity + MGF); moments of products of finite distributions multiply, so RDP bounds ADD under non-adaptive composition and the sum converts soundly. Float faithfulness is validated per point by the Interval tactic: the Python value of _compute_rdp lies within 1e-9 of '
            'the real formula (kernel-checked enclosure), fractional orders are sandwiched between integer neighbours, get_epsilon is recomputed from certified values. Not proved: '
            'that A_alpha is the Renyi moment of the sampled Gaussian mechanism (cited), the fractional-order erfc series, the continuous version of the conversion.'),
  },
